@@ -112,6 +112,21 @@ def swaps(ctx, n, order, tts, reps, aged):
 
 def to_order(ctx, n, order, tts, target):
     H = Held(ctx, f'reorder-to n={n} {order}->{target}', n, order, tts)
+    if n >= 2 and ctx.rng.random() < 0.5:
+        # an order that names only SOME variables (or levels that are no permutation) is
+        # refused; whatever the call does, afterwards either the requested levels hold or
+        # nothing moved
+        k = ctx.rng.randrange(1, n)
+        vs = ctx.rng.sample(range(n), k)
+        part = {v: l for v, l in zip(vs, ctx.rng.sample(range(n), k))}
+        before = dict(H.M.b.vars)
+        r = H.M.op('reorder', part)
+        ctx.count('partial-order-request')
+        now = dict(H.M.b.vars)
+        if now != before and any(now['v%d' % v] != l for v, l in part.items()):
+            ctx.violation('C07:order', f'reorder({part}) returned {"normally" if r is not None else "an error"}: '
+                          f'the order changed to {now} but the requested levels do not hold', H.M.case())
+        H.check('reorder(partial order)')
     H.M.op('reorder', {v: l for v, l in zip(range(n), target)})
     ctx.case(('to-order', n, tuple(order), tuple(target), tuple(tts)), True)
     ctx.count('reorder-to-order')
